@@ -41,6 +41,8 @@ func main() {
 	var err error
 	builtinMetrics, err = os.ReadFile(newLayout(os.Getenv(rootEnv)).defMet)
 	must(err)
+	builtinFull, err = os.ReadFile(filepath.Join(filepath.Dir(newLayout(os.Getenv(rootEnv)).defMet), "metrics.full.yaml"))
+	must(err)
 	childLoop()
 }
 
@@ -211,6 +213,13 @@ func parsePut(ws []string) (*putOp, bool) {
 		p.faultKind = f
 	default:
 		parts := strings.Split(f, ":")
+		if len(parts) == 3 && parts[0] == "hacall" {
+			// hacall:<managed|body|capture>:<logical>
+			if (parts[1] != "managed" && parts[1] != "body" && parts[1] != "capture") || !okLogical(parts[2]) {
+				return nil, false
+			}
+			parts = []string{"hacall", parts[1] + ":" + parts[2]}
+		}
 		if len(parts) != 2 {
 			return nil, false
 		}
@@ -220,6 +229,7 @@ func parsePut(ws []string) (*putOp, bool) {
 			if !okLogical(p.faultArg) {
 				return nil, false
 			}
+		case "hacall":
 		case "haproxy":
 			if p.faultArg != "1" && p.faultArg != "2" {
 				return nil, false
@@ -447,6 +457,9 @@ func (w *world) setup(p *putOp) {
 	case "haproxy":
 		n, _ := strconv.Atoi(p.faultArg)
 		w.ha.set(n)
+	case "hacall":
+		cf := strings.SplitN(p.faultArg, ":", 2)
+		w.ha.refuse(map[string]string{"managed": "/managed_endpoint", "body": "/include_body_from", "capture": "/capture_req_from"}[cf[0]], cf[1])
 	case "clean":
 		w.ctl.AddFault(sched.FaultRule{Op: "remove", ArgSuffix: real(p.faultArg), Nth: 1})
 	}
@@ -540,6 +553,15 @@ func (w *world) release() (int, string, []string) {
 	return w.await(p, done)
 }
 
+func (x *caseRun) noteHAFault(p *putOp) {
+	switch {
+	case p.faultKind == "haproxy" && p.faultArg == "2":
+		x.haFault = true
+	case p.faultKind == "haproxy" || p.faultKind == "hacall":
+		x.haFuzzy = true
+	}
+}
+
 func fmtAnswer(o *caseStats, st int, ph string, mid []string) string {
 	m := "%e"
 	if len(mid) > 0 {
@@ -628,7 +650,8 @@ type caseRun struct {
 	live       bool
 	nontrivial bool
 	replaying  bool // re-running a prefix of the case to re-create its state: no statistics
-	haFault    bool // a HAProxy admin call was made to fail in this case: the managed set is not compared
+	haFault    bool // the roll-back's HAProxy update was made to fail: the managed set is not predictable any more
+	haFuzzy    bool // a HAProxy update failed half-way: which calls got through is Go's map order, until the delay elapses
 }
 
 func (x *caseRun) execOp(i int) string {
@@ -654,7 +677,7 @@ func (x *caseRun) execOp(i int) string {
 		w.ha.set(0)
 		w.writeTree(entries)
 		w.ha.resetManaged()
-		x.haFault = false
+		x.haFault, x.haFuzzy = false, false
 		st, body := w.do("POST", "/load_flows", nil)
 		x.live = st == 200
 		if x.live {
@@ -689,9 +712,7 @@ func (x *caseRun) execOp(i int) string {
 		if w.heldPut != nil && (p.faultKind != "none" || p.gate) {
 			return "bad-op"
 		}
-		if p.faultKind == "haproxy" {
-			x.haFault = true
-		}
+		x.noteHAFault(p)
 		var st int
 		var ph string
 		var mid []string
@@ -742,12 +763,13 @@ func (x *caseRun) execOp(i int) string {
 		// the un-manage delay (staleVersionTTL = 30 s) elapses on the engine's clock
 		w.clock.AdvanceTime(31 * time.Second)
 		w.ha.quiesce()
+		x.haFuzzy = false
 		return "ok"
 	case ws[0] == "managed" && len(ws) == 1:
 		if !x.live {
 			return "skip"
 		}
-		if x.haFault {
+		if x.haFault || x.haFuzzy {
 			return "n/a"
 		}
 		return w.ha.managedFiles()
@@ -778,9 +800,7 @@ func (x *caseRun) execOp(i int) string {
 			return "none"
 		}
 		p := w.heldPut
-		if p.faultKind == "haproxy" {
-			x.haFault = true
-		}
+		x.noteHAFault(p)
 		st, ph, mid := w.release()
 		if !x.replaying {
 			o.Count("release-" + ph)
